@@ -117,7 +117,7 @@ pub fn guard<T>(f: impl FnOnce() -> T) -> Result<T, Panic> {
 /// A panic of `f` itself (harness code outside `guard`) is a harness error and is propagated.
 pub fn in_thread<T: Send + 'static>(seed: u64, f: impl FnOnce() -> T + Send + 'static) -> T {
     let handle = std::thread::Builder::new()
-        .stack_size(8 << 20)
+        .stack_size(2 << 20)
         .spawn(move || {
             seed_current_thread(seed);
             f()
